@@ -26,3 +26,23 @@
 #define EXP_N 1
 #define EXP_W 8
 #endif
+#if CASE == 6   /* (kPE16.8), k any digit: scale factor present, repeat count omitted (seed C20c) */
+#define DESCRIPTOR (B(0) == '(' && ('0' <= B(1) && B(1) <= '9') && B(2) == 'P' && B(3) == 'E' && B(4) == '1' && B(5) == '6' && B(6) == '.' && B(7) == '8' && B(8) == ')' && B(9) == ' ' && B(10) == ' ' && B(11) == ' ' && B(12) == ' ' && B(13) == ' ' && B(14) == ' ' && B(15) == ' ' && B(16) == ' ' && B(17) == ' ' && B(18) == ' ' && B(19) == ' ')
+#define EXP_N 1
+#define EXP_W 16
+#endif
+#if CASE == 7   /* (kP,D24.12), k any digit */
+#define DESCRIPTOR (B(0) == '(' && ('0' <= B(1) && B(1) <= '9') && B(2) == 'P' && B(3) == ',' && B(4) == 'D' && B(5) == '2' && B(6) == '4' && B(7) == '.' && B(8) == '1' && B(9) == '2' && B(10) == ')' && B(11) == ' ' && B(12) == ' ' && B(13) == ' ' && B(14) == ' ' && B(15) == ' ' && B(16) == ' ' && B(17) == ' ' && B(18) == ' ' && B(19) == ' ')
+#define EXP_N 1
+#define EXP_W 24
+#endif
+#if CASE == 8   /* (kP,nE16.8), k any digit, n in 1..9 */
+#define DESCRIPTOR (B(0) == '(' && ('0' <= B(1) && B(1) <= '9') && B(2) == 'P' && B(3) == ',' && ('1' <= B(4) && B(4) <= '9') && B(5) == 'E' && B(6) == '1' && B(7) == '6' && B(8) == '.' && B(9) == '8' && B(10) == ')' && B(11) == ' ' && B(12) == ' ' && B(13) == ' ' && B(14) == ' ' && B(15) == ' ' && B(16) == ' ' && B(17) == ' ' && B(18) == ' ' && B(19) == ' ')
+#define EXP_N (B(4) - '0')
+#define EXP_W 16
+#endif
+#if CASE == 9   /* (kPnF13.6), k any digit, n in 1..9 */
+#define DESCRIPTOR (B(0) == '(' && ('0' <= B(1) && B(1) <= '9') && B(2) == 'P' && ('1' <= B(3) && B(3) <= '9') && B(4) == 'F' && B(5) == '1' && B(6) == '3' && B(7) == '.' && B(8) == '6' && B(9) == ')' && B(10) == ' ' && B(11) == ' ' && B(12) == ' ' && B(13) == ' ' && B(14) == ' ' && B(15) == ' ' && B(16) == ' ' && B(17) == ' ' && B(18) == ' ' && B(19) == ' ')
+#define EXP_N (B(3) - '0')
+#define EXP_W 13
+#endif
